@@ -1,4 +1,6 @@
 import TinodeVerif.Model.Ring
+import TinodeVerif.Model.Election
+import Std.Data.HashSet
 import TinodeVerif.Driver.Wire
 namespace Tinode.Driver.C17
 open Tinode.Ring Tinode.Wire
@@ -69,5 +71,82 @@ def verdict (ws : List String) (out : List String) : Option Bool :=
           (nodes.isEmpty || n == 0 || owners.all (fun o => nodes.contains o)))
   | ["ring.get", _, _, _, _], _ => pure false
   | _, _ => pure true
+
+end Tinode.Driver.C17
+
+namespace Tinode.Driver.C17
+open Tinode.Election Tinode.Wire Tinode.Gen.Election
+
+/-! Bounded explorer over the *regenerated* election model: used only to search for a concrete failing schedule
+when a proof obligation about `Gen.Election` no longer checks. Not a proof. -/
+
+def showAct : Act → String
+  | .timeout i => s!"timeout({i})"
+  | .deliver k => s!"deliver#{k}"
+  | .drop k => s!"drop#{k}"
+  | .finish i => s!"finish({i})"
+  | .heartbeat i => s!"heartbeat({i})"
+
+def stateKey (w : World) : String :=
+  let ns := (List.range w.n).map (fun i => let x := w.nodes i; s!"{x.term}/{repr x.leader}/{repr x.electing}")
+  s!"{ns}|{repr w.net}|{repr w.granted}"
+
+/-- property monitor on a model state: two self-leaders in one term, a double vote, or a leader without a strict majority -/
+def badState (w : World) : Option String :=
+  let idx := List.range w.n
+  let leaders := idx.filter (fun i => (w.nodes i).leader == some i && (w.nodes i).electing == none)
+  let two := leaders.any (fun i => leaders.any (fun j => i != j && (w.nodes i).term == (w.nodes j).term))
+  let dbl := w.granted.any (fun (v, t, c) => w.granted.any (fun (v', t', c') => v == v' && t == t' && c != c'))
+  let nomaj := leaders.any (fun i =>
+    let votes := (w.granted.filter (fun (_, t, c) => c == i && t == (w.nodes i).term)).map (·.1) |>.eraseDups
+    decide (2 * votes.length ≤ w.n))
+  if two then some "two-leaders-in-one-term"
+  else if dbl then some "two-votes-in-one-term"
+  else if nomaj then some "leader-without-strict-majority"
+  else none
+
+def enabledActs (w : World) (maxTerm : Int) : List Act :=
+  let idx := List.range w.n
+  (idx.filter (fun i => (w.nodes i).term < maxTerm)).map Act.timeout ++
+  idx.map Act.finish ++ idx.map Act.heartbeat ++ (List.range w.net.length).map Act.deliver
+
+partial def bfs (frontier : List (World × List Act)) (seen : Std.HashSet String) (budget depth : Nat) (maxTerm : Int)
+    (maxNet : Nat) : Nat × Option (String × List Act) :=
+  match depth with
+  | 0 => (seen.size, none)
+  | depth + 1 => Id.run do
+    let mut next : List (World × List Act) := []
+    let mut seen := seen
+    for (w, path) in frontier do
+      for a in enabledActs w maxTerm do
+        match step w a with
+        | none => pure ()
+        | some w' =>
+          if w'.net.length > maxNet then continue
+          let key := stateKey w'
+          if seen.contains key then continue
+          seen := seen.insert key
+          match badState w' with
+          | some why => return (seen.size, some (why, (a :: path).reverse))
+          | none => pure ()
+          if seen.size > budget then return (seen.size, none)
+          next := (w', a :: path) :: next
+    if next.isEmpty then return (seen.size, none)
+    return bfs next seen budget depth maxTerm maxNet
+
+def explore (n depth budget : Nat) : String :=
+  let (states, res) := bfs [(init n, [])] {} budget depth 2 (2 * n)
+  match res with
+  | none => s!"none states={states}"
+  | some (why, path) => s!"{why} states={states} schedule={",".intercalate (path.map showAct)}"
+
+def modelE (ws : List String) : Option String :=
+  match ws with
+  | ["elect.explore", n, depth, budget] => do
+    pure (explore (← decNat n) (← decNat depth) (← decNat budget))
+  | ["elect.guards", a, b] => do
+    let a ← decInt a; let b ← decInt b
+    pure s!"{voteGuard a b} {healthStale a b} {healthNewer a b} {abandonGuard a b} {electedGuard a b} {expectVotes a} {isPartitioned a b} {electTermStep a}"
+  | _ => none
 
 end Tinode.Driver.C17
